@@ -45,7 +45,23 @@ VStats(e) ==
   ELSE IF NormStats(e.deep_stats) # want THEN "C21_deep_stats"
   ELSE ""
 
-Verdict(e) == CASE e.ev = "manifest" -> VManifest(e) [] e.ev = "stats" -> VStats(e) [] e.ev = "crash" -> "C21_Crash" [] OTHER -> "unknown_event"
+\* the walk streamed by the web API (POST ?t=stream-manifest): one unit per object, a final stats unit, or an "ERROR:" line
+\* (docs/frontends/webapi.rst: "If any errors occur during the traversal ... an error indication is written to the response
+\* body").  e.broken = the directories the harness made unrecoverable before the request.
+PathObj(V) == {[path |-> V[i].path, obj |-> V[i].obj] : i \in 1..Len(V)}
+VWebManifest(e) ==
+  LET V == ObsV(e)
+      W == Traverse(Graph, Root, e.via)
+  IN IF e.code # 200 \/ e.junk # 0 THEN "C21_web_response_malformed"
+     ELSE IF \E i \in 1..Len(V) : V[i].obj \notin DOMAIN Graph.type THEN "C21_web_reports_unknown_object"
+     ELSE IF Len(V) # Cardinality(PathObj(V)) THEN "C21_web_unit_repeated"
+     ELSE IF ~(PathObj(V) \subseteq PathObj(W)) THEN "C21_web_reported_paths"
+     \* a response that does not say ERROR is a complete walk
+     ELSE IF ~e.error /\ (~e.complete \/ PathObj(V) # PathObj(W)) THEN "C21_web_incomplete_without_error"
+     ELSE IF Len(e.broken) = 0 /\ e.error THEN "C21_web_error_on_healthy_graph"
+     ELSE ""
+
+Verdict(e) == CASE e.ev = "web_manifest" -> VWebManifest(e) [] e.ev = "manifest" -> VManifest(e) [] e.ev = "stats" -> VStats(e) [] e.ev = "crash" -> "C21_Crash" [] OTHER -> "unknown_event"
 
 TraceInit == tid \in 1..Len(Traces) /\ l = 1 /\ bad = "none"
 TraceNext ==
